@@ -1,4 +1,6 @@
 NET = "network::kani_c19_net"
+import os
+OK_NEW = {"c19_bitvec_encdec_w2"}
 AGG = "crypto::aggsig::kani_c19_aggsig"
 VOTE = "consensus::vote::kani_c19_vote"
 SHRED = "shredder::kani_c19_shred"
@@ -32,6 +34,7 @@ def _index(kind, ty, maxv):
               f"every byte string of 0..=10 bytes (length and all contents symbolic) through network::deserialize::<{ty}>; accepted <=> exactly 8 bytes and value < {maxv}; decoded value = the integer; re-encoding = the input", 4)
 
 
+ENC_T = (["quick", "thorough"] if "c19_bitvec_encdec_w2" in OK_NEW else (["thorough"] if os.environ.get("VERIF_EXPERIMENTAL") else []))
 BITVEC_FNS = ["crypto::aggsig::read_bitvec", "crypto::aggsig::write_bitvec", "crypto::aggsig::bitvec_size", "bitvec::BitVec::{try_from_vec,truncate,as_raw_slice,len} (real)"]
 
 
@@ -82,6 +85,8 @@ HARNESSES = [
        ["network::deserialize", "<IndividualSignature as SchemaRead>::read", "<IndividualSignature as SchemaWrite>::{size_of,write}", "blst::min_sig::Signature::{sig_validate,from_bytes,deserialize,validate,serialize} (real Rust wrappers)"],
        "signature bytes in {fixture A, fixture B, infinity, any other 96 bytes}; buffer = the exact 96 bytes, one byte short or one byte long; accepted <=> exact length and genuine non-infinity signature; re-encoding = input",
        4, BLS_STUBS),
+    _h("c19_bitvec_encdec_w2", AGG, ENC_T, "encode then decode/two-word bitmask, top word possibly empty", BITVEC_FNS,
+       "bitmask of 65..=128 bits over two arbitrary 64-bit words, written by write_bitvec and read back with the production limit", 2),
     _h("c19_bytes_aggsig_b16", AGG, T, "arbitrary-bytes/AggregateSignature", AGGSIG_FNS,
        "96 signature bytes in {fixture A, fixture B, infinity, any other bytes (= not a point)} followed by exactly 16 arbitrary bytes; accepted <=> point encoding valid, bitmask well-formed and ending exactly at the end of the buffer; re-encoding = canonical form",
        5, BLS_STUBS),
